@@ -3,7 +3,7 @@ import json, os, subprocess
 import common
 from common import tlc, tlc_ok, tlc_must_fail, build_driver, run_driver, judge, ToolError, log
 
-WHY = {"C03": {"accept", "errclass", "compile"}, "C04": {"tree", "paren", "results"}}
+WHY = {"C03": {"accept", "errclass", "compile"}, "C04": {"tree", "paren", "results"}, "C12": {"coords", "errclass"}}
 
 TIERS = {
     "quick":    dict(mc_lang="MC_Lang_quick.cfg", mc_sent="MC_Sent_quick.cfg", tokN=4, nearN=4, chars=[("full", 3), ("small", 4)],
